@@ -34,7 +34,9 @@ Init == /\ e \in First..Len(Trace)
 
 Judge == /\ st = "todo"
          /\ st' = "done"
-         /\ out' = (IF Trace[e].op = "generate_code"
+         /\ out' = (IF ModelOf(Trace[e], m).oracle = "singular"
+                    THEN <<>>    \* the RE zeroth-order block of this model Hamiltonian is singular: no oracle
+                    ELSE IF Trace[e].op = "generate_code"
                     THEN CodegenContract(Trace[e], WithTables(ModelOf(Trace[e], m), Trace[e].tabhint))
                     ELSE Contract(Trace[e], WithTables(ModelOf(Trace[e], m), Trace[e].tabhint)))
          /\ UNCHANGED <<e, m>>
